@@ -378,16 +378,16 @@ number of negative factors is odd) to a face with `s∘d` on its negative side -
 theorem trimeshScaled_keeps_outward (s a b c d : V3 K) (hx : s.x ≠ 0) (hy : s.y ≠ 0) (hz : s.z ≠ 0)
     (h : @vol6 K (fieldNum K sq) a b c d < 0) :
     letI := fieldNum K sq
-    vol6 (rewind true s (scalePt s a) (scalePt s b) (scalePt s c)).1 (rewind true s (scalePt s a) (scalePt s b) (scalePt s c)).2.1
-      (rewind true s (scalePt s a) (scalePt s b) (scalePt s c)).2.2 (scalePt s d) < 0 := by
+    vol6 (Acc.rewind true s (scalePt s a) (scalePt s b) (scalePt s c)).1 (Acc.rewind true s (scalePt s a) (scalePt s b) (scalePt s c)).2.1
+      (Acc.rewind true s (scalePt s a) (scalePt s b) (scalePt s c)).2.2 (scalePt s d) < 0 := by
   letI := fieldNum K sq
   obtain ⟨hm, hn⟩ := mirrors_iff sq s hx hy hz
   cases hmir : mirrors s with
   | true =>
-    simp only [rewind, hmir, Bool.and_self, if_true]
+    simp only [Acc.rewind, hmir, Bool.and_self, if_true]
     exact mirror_swap_restores sq s a b c d (hm.mp hmir) h
   | false =>
-    simp only [rewind, hmir, Bool.and_false, Bool.false_eq_true, if_false]
+    simp only [Acc.rewind, hmir, Bool.and_false, Bool.false_eq_true, if_false]
     exact winding_kept_of_pos sq s a b c d (hn.mp hmir) h
 
 /-- the pinned-tree rule "keep the index buffer" is refuted: unit tetrahedron face, scale `(-1, 1, 1)` -/
